@@ -217,6 +217,32 @@ fn c01_statistics_ops_delegates_queries_concrete() {
     assert!(matches!((a, b), (Ok(x), Ok(y)) if x == y));
     kani::cover!(true);
 }
+// ---- C05: the same for the wrappers: through the StatisticsOps trait a Harmonic / Geometric state reports ITS OWN mean,
+// standard error, count and interval (the documented back-transforms), not those of the arithmetic state it wraps.
+// Concrete distinguishing states (see the note above); sees the expanded macro whatever shape the macro has.
+#[kani::proof]
+fn c05_statistics_ops_delegates_harmonic_concrete() {
+    let h = Harmonic { recip_space: arith_from_parts_f64(1.75, 1.3125, 3) }; // data 1, 2, 4 (reciprocals 1, 1/2, 1/4)
+    assert!(<Harmonic<f64> as StatisticsOps<f64>>::sample_count(&h) == 3 && h.sample_count() == 3);
+    let (own_mean, own_sem) = (h.sample_mean(), h.sample_sem());
+    assert!(<Harmonic<f64> as StatisticsOps<f64>>::sample_mean(&h).to_bits() == own_mean.to_bits());
+    assert!(<Harmonic<f64> as StatisticsOps<f64>>::sample_sem(&h).to_bits() == own_sem.to_bits());
+    // distinguishing: the wrapper's figures are not the inner state's
+    assert!(own_mean != h.recip_space.sample_mean() && own_sem != h.recip_space.sample_sem());
+    let mut g = h;
+    assert!(<Harmonic<f64> as StatisticsOps<f64>>::append(&mut g, 0.0).is_err() && g == h, "the trait's append must validate like the inherent one");
+    kani::cover!(true);
+}
+#[kani::proof]
+fn c05_statistics_ops_delegates_geometric_concrete() {
+    let g = Geometric { log_space: arith_from_parts_f64(3.0, 5.0, 3) }; // log-space sum 3, sum of squares 5
+    assert!(<Geometric<f64> as StatisticsOps<f64>>::sample_count(&g) == 3 && g.sample_count() == 3);
+    // (CBMC's model of `exp` is nondeterministic within its error bound, so two evaluations of G or of G * se(ln x) cannot be
+    // compared for equality here; the float-valued queries of Geometric are decided by the Verus obligations Geometric::ops_*)
+    let mut k = g;
+    assert!(<Geometric<f64> as StatisticsOps<f64>>::append(&mut k, -1.0).is_err() && k == g, "the trait's append must validate like the inherent one");
+    kani::cover!(true);
+}
 // the one-shot entry points (inherent `ci`, trait StatisticsOps::ci, trait MeanCI::ci) agree with extend + ci_mean
 #[kani::proof]
 #[kani::unwind(5)]
